@@ -10,6 +10,7 @@ import (
 	"go/types"
 	"regexp"
 	"sort"
+	"strconv"
 	"strings"
 
 	"golang.org/x/tools/go/ssa"
@@ -359,8 +360,8 @@ func c07CBORDispatch(w *World, r *Recorder) {
 			why = "the caller's buffer is not decoded twice (selector, then claims)"
 		case !strings.Contains(avSubject(dms[0].Args[1]), "&L:") || !strings.Contains(dms[0].Args[1].name(), sel.Comment):
 			why = "the first decode does not fill the selector struct"
-		case !strings.HasSuffix(strings.TrimSuffix(strings.TrimPrefix(okAtom, "ok:lookup(g:"+regName+","), ")"), "."+selField) && !strings.Contains(okAtom, "."+selField+")"):
-			why = "the register is not looked up under the decoded selector field: " + okAtom
+		case !plainFieldOfDecoded(lookupKeyOf(okAtom, regName), selField):
+			why = "the register is not looked up under exactly the decoded selector field (no trimming, folding or other transformation of the declared value): " + okAtom
 		case gc == nil || gc.Recv == nil || !strings.HasPrefix(gc.Recv.name(), "lookup(g:"+regName+","):
 			why = "the claims object is not GetClaims() of the entry found"
 		case avSubject(dms[1].Args[1]) != avSubject(gc.Result) || avSubject(p.Rets[0]) != avSubject(gc.Result):
@@ -396,6 +397,49 @@ func c07CBORDispatch(w *World, r *Recorder) {
 			}
 		}
 	}
+}
+
+// lookupKeyOf: the key part of the atom ok:lookup(g:<reg>,<key>)[@n].
+func lookupKeyOf(atom, regName string) string {
+	k := strings.TrimPrefix(atom, "ok:lookup(g:"+regName+",")
+	if i := strings.LastIndex(k, ")@"); i >= 0 {
+		if _, err := strconv.Atoi(k[i+2:]); err == nil {
+			k = k[:i+1]
+		}
+	}
+	return strings.TrimSuffix(k, ")")
+}
+
+// plainFieldOfDecoded: the abstract name is `<memory written by the decoder>.<field>`
+// — the field itself, not a function of it (strings.TrimSpace(x.f),
+// strings.ToLower(x.f), conv(...)).
+func plainFieldOfDecoded(key, field string) bool {
+	if !strings.HasSuffix(key, "."+field) {
+		return false
+	}
+	base := strings.TrimSuffix(key, "."+field)
+	if i := strings.LastIndex(base, ")@"); i >= 0 {
+		if _, err := strconv.Atoi(base[i+2:]); err == nil {
+			base = base[:i+1]
+		}
+	}
+	if !strings.HasPrefix(base, "w(") || !strings.HasSuffix(base, ")") {
+		return false
+	}
+	// the parenthesis opened by "w(" closes at the very end
+	depth := 0
+	for i, c := range base {
+		switch c {
+		case '(':
+			depth++
+		case ')':
+			depth--
+			if depth == 0 && i != len(base)-1 {
+				return false
+			}
+		}
+	}
+	return depth == 0
 }
 
 // c07Init: what the package initialisers put into the register.
@@ -1241,6 +1285,16 @@ func checkC16(w *World, r *Recorder) propInfo {
 	// dispatchers compute must not depend on a pointer to a variable that later
 	// loop iterations overwrite
 	c16StaleLoopPointers(w, r)
+	// N6: a registration changes the outcome of decoding only for tokens that
+	// declare the registered name: the CBOR dispatcher keys the register by
+	// exactly the declared value (C07-P1 run again under this property — a
+	// trimmed, folded or otherwise normalised key lets a new entry capture
+	// tokens that declare something else)
+	{
+		sub := NewRecorder(r.Property)
+		c07CBORDispatch(w, sub)
+		remap(r, sub, map[string]string{"C07-P1": "C16-N6"})
+	}
 	r.Floor("C16-N1", 2)
 	r.Floor("C16-N2", 1)
 	r.Floor("C16-N3", 3)
